@@ -224,7 +224,7 @@ theorem C07_fast_eq_fallback (fuel : Nat) (r : Reader) (hf : 1 ≤ fuel) :
       unfold nextOptFallback
       rw [run_fallback_unfold, hscan]
       rfl
-    rcases hadv with ha | ⟨h32, ha⟩
+    rcases hadv with ha | ⟨h32, ha, _⟩
     · exact ⟨t, r1, r1, hres, by rw [hfb, ha], Or.inl rfl⟩
     · have hk : adv + 1 ≤ r.win.length := by
         unfold TextReader.advance at ha; split at ha
